@@ -802,6 +802,10 @@ class Engine:
                 return VOpaque(f"{base.cls}.{e.attr}")
             return VConst(("method", base, e.attr))
         if isinstance(base, VConst):
+            py = base.py
+            if e.attr == "kind" and isinstance(py, tuple) and py[0] == "method" and py[2] == "dtype" and isinstance(py[1], VNum):
+                # ndarray.dtype.kind of a scalar whose static kind the engine knows
+                return VStr("b" if py[1].is_bool else ("i" if py[1].is_int else "f"))
             return VConst(("attr", base.py, e.attr))
         if isinstance(base, VKeyed):
             return VKeyed(f"{base.tag}.{e.attr}", base.k)
@@ -1454,7 +1458,9 @@ class Engine:
         yield st, None
 
     def s_FunctionDef(self, s, st):
-        st.env[s.name] = VOpaque(f"closure:{s.name}")
+        v = VOpaque(f"closure:{s.name}")
+        v.node = s           # the body is only ever executed through a higher-order abstraction with its own contract (lax_scan)
+        st.env[s.name] = v
         yield st, None
 
     def s_Import(self, s, st):
